@@ -33,6 +33,7 @@ type SiteSpec struct {
 	Assert []*Clause
 	Assume []*Clause // assumed just before the call (listed in the evidence)
 	AssumePost []*Clause // assumed just after the call (may mention r0..)
+	Ghosts     []GhostUpdate // ghost updates applied just after the call
 }
 
 type LockEffect struct {
@@ -587,10 +588,6 @@ func (cs *ContractSet) parseClause(fc *FuncContract, c rawClause) error {
 		}
 		idx := strings.Index(c.text, f[2])
 		body := strings.TrimSpace(c.text[idx+len(f[2]):])
-		cl, err := parseLabeled(body, c.pos)
-		if err != nil {
-			return err
-		}
 		var site *SiteSpec
 		for _, s := range fc.Sites {
 			if s.Callee == callee && s.Occ == occ {
@@ -600,6 +597,28 @@ func (cs *ContractSet) parseClause(fc *FuncContract, c rawClause) error {
 		if site == nil {
 			site = &SiteSpec{Kind: "call", Callee: callee, Occ: occ}
 			fc.Sites = append(fc.Sites, site)
+		}
+		if f[2] == "ghostset" {
+			// ghost bookkeeping tied to this call site: name[key] = value,
+			// applied just after the call
+			m := regexp.MustCompile(`^([A-Za-z_][A-Za-z0-9_]*)\[(.*?)\]\s*=\s*(.*)$`).FindStringSubmatch(body)
+			if m == nil {
+				return fmt.Errorf("at call ... ghostset wants: name[key] = value")
+			}
+			k, err := ParseSExpr(m[2])
+			if err != nil {
+				return err
+			}
+			v, err := ParseSExpr(m[3])
+			if err != nil {
+				return err
+			}
+			site.Ghosts = append(site.Ghosts, GhostUpdate{Map: m[1], Key: k, Value: v, Text: body})
+			return nil
+		}
+		cl, err := parseLabeled(body, c.pos)
+		if err != nil {
+			return err
 		}
 		switch f[2] {
 		case "assert":
